@@ -17,7 +17,7 @@ import core
 
 LEVEL_NOTE = ("theorems are about model/BulkOps.v + model/Glob_c17.v (Python list.remove by identity, dict deletion, string "
               "slices incl. name[-0:], for/else made explicit); a matrix is a tree (no Signal object shared between frames); "
-              "glob patterns without '['; attribute names/values, ECU names and all untouched fields are opaque integers; "
+              "the model's glob patterns have no '[' classes (those are searched with the oracle only); attribute names/values, ECU names and all untouched fields are opaque integers; "
               "the DBC writer itself is not modelled - exportability is tested on the implementation; rename_frame is modelled as it is "
               "with fixes/C17_rename_frame_elif.patch applied (if/elif/elif) - the code without the patch is rename_frame_unfixed "
               "(theorems ..._refuted / ..._partial: exact whenever no frame name contains '*')")
@@ -131,17 +131,72 @@ def copy_nf(nf):
 
 # ------------------------------------------------------------------------------------------------------------------
 # the oracle: the property, transcribed
+def glob_tokens(pat):
+    """pattern -> tokens ('*',) ('?',) ('lit', c) ('set', negated, [single characters], [(lo, hi) ranges]).
+    A '[' opens a character class up to the next ']' (a ']' directly after '[' or '[!' is a member); '!' first negates;
+    x-y is a range; a '[' without closing ']' is an ordinary character."""
+    toks = []
+    i, n = 0, len(pat)
+    while i < n:
+        c = pat[i]
+        i += 1
+        if c == "*":
+            toks.append(("*",))
+        elif c == "?":
+            toks.append(("?",))
+        elif c == "[":
+            j = i
+            if j < n and pat[j] == "!":
+                j += 1
+            if j < n and pat[j] == "]":
+                j += 1
+            while j < n and pat[j] != "]":
+                j += 1
+            if j >= n:
+                toks.append(("lit", "["))
+                continue
+            body = pat[i:j]
+            i = j + 1
+            neg = body.startswith("!")
+            if neg:
+                body = body[1:]
+            singles, ranges = [], []
+            k = 0
+            while k < len(body):
+                if k + 2 < len(body) and body[k + 1] == "-":
+                    ranges.append((body[k], body[k + 2]))
+                    k += 3
+                else:
+                    singles.append(body[k])
+                    k += 1
+            toks.append(("set", neg, singles, ranges))
+        else:
+            toks.append(("lit", c))
+    return toks
+
+
 def glob_oracle(pat, name):
-    """'*' any run of characters, '?' exactly one, everything else itself (dynamic programming, no recursion on the code)"""
-    n, m = len(pat), len(name)
+    """'*' any run of characters, '?' exactly one, [..] one character of the class, everything else itself
+    (dynamic programming over the tokens; no use of the code under test or of fnmatch)"""
+    toks = glob_tokens(pat)
+    n, m = len(toks), len(name)
     t = [[False] * (m + 1) for _ in range(n + 1)]
     t[0][0] = True
     for i in range(1, n + 1):
+        tok = toks[i - 1]
         for j in range(0, m + 1):
-            if pat[i - 1] == "*":
+            if tok[0] == "*":
                 t[i][j] = t[i - 1][j] or (j > 0 and t[i][j - 1])
-            elif j > 0 and (pat[i - 1] == "?" or pat[i - 1] == name[j - 1]):
-                t[i][j] = t[i - 1][j - 1]
+            elif j > 0:
+                ch = name[j - 1]
+                if tok[0] == "?":
+                    hit = True
+                elif tok[0] == "lit":
+                    hit = tok[1] == ch
+                else:
+                    inside = ch in tok[2] or any(lo <= ch <= hi for lo, hi in tok[3])
+                    hit = inside != tok[1]
+                t[i][j] = hit and t[i - 1][j - 1]
     return t[n][m]
 
 
@@ -383,8 +438,31 @@ def mutate_name_to_glob(rng, name):
     return "".join(out)
 
 
+def char_class(rng, c):
+    """a [..] class built around character c of a name: sometimes containing it, sometimes not"""
+    r = rng.random()
+    other = rng.choice("abc")
+    if r < 0.35:
+        return "[%s%s]" % (c, other) if rng.random() < 0.5 else "[%s%s]" % (other, c)
+    if r < 0.55:
+        return "[a-%s]" % rng.choice("abc")
+    if r < 0.8:
+        return "[!%s]" % other
+    return "[%s]" % other
+
+
 def gen_glob(rng, names):
-    if names and rng.random() < 0.6:
+    r = rng.random()
+    if names and r < 0.15:
+        # a character-class pattern, mostly WITHOUT '*' and '?' (fnmatch treats it as a pattern all the same)
+        name = rng.choice(names)
+        k = rng.randrange(len(name))
+        if name[k] not in "*?[]!-":
+            pat = name[:k] + char_class(rng, name[k]) + name[k + 1:]
+            if rng.random() < 0.25:
+                pat = pat + "*" if rng.random() < 0.5 else "?" + pat[1:] if k > 0 else pat
+            return pat
+    if names and r < 0.65:
         return mutate_name_to_glob(rng, rng.choice(names))
     return gen_name(rng, "ab*?", maxlen=4)
 
@@ -550,7 +628,10 @@ def run(chk):
             cur = after
         if final is None:
             final = cur
-        if record and ops:
+        bracket = any(o[0] == "delsig" and "[" in o[1] for o in ops)
+        if record and bracket:
+            chk.count("searched-not-tied-bracket-pattern")      # model/Glob_c17.v has no character classes
+        if record and ops and not bracket:
             exp_out = [[0]] if final == "raise" else [[1]] + groups_of(final)
             if len(ops) == 1:
                 add_model(CMD[ops[0][0]], op_groups(ops[0]) + groups_of(nf0), exp_out, dict(matrix=nf0, op=ops[0]))
@@ -749,6 +830,18 @@ def run(chk):
         pat = "".join(rng.choice("aabbc*?") for _ in range(rng.randrange(0, 7)))
         pairs.append((pat, name))
     oracle_bad = 0
+    # the oracle's reading of character classes, validated against the standard library (these pairs do not go to the model)
+    nclass = 0
+    for _ in range(3000 if not thorough else 30000):
+        name = "".join(rng.choice("abc") for _ in range(rng.randrange(0, 5)))
+        pat = "".join(rng.choice(["a", "b", "c", "*", "?", "[ab]", "[!a]", "[a-b]", "[b-c]", "[c]", "[!bc]", "[", "[]a]", "[!]a]"])
+                      for _ in range(rng.randrange(1, 5)))
+        nclass += 1
+        r = fnmatch.fnmatchcase(name, pat)
+        if glob_oracle(pat, name) != r:
+            oracle_bad += 1
+            chk.tie_break("glob-oracle-vs-fnmatch", dict(pattern=pat, name=name), glob_oracle(pat, name), r)
+    chk.count("glob-class-pairs-oracle-vs-fnmatch", nclass)
     for pat, name in pairs:
         r = fnmatch.fnmatchcase(name, pat)
         if glob_oracle(pat, name) != r:
@@ -771,9 +864,13 @@ def run(chk):
             chk.violation("glob-lookup", "glob_frames/glob_signals did not return exactly the matching objects",
                           dict(matrix=nf0, frame_pattern=pf, signal_pattern=ps), None, dict(frames=gf, signals=gs))
         chk.case(json.dumps([nf0, pf, ps]), bool(gf or gs))
-        add_model(1713, [codes(pf), codes(ps)] + groups_of(canon_nf(nf0)), [gf, gs], dict(matrix=nf0, frame_pattern=pf, signal_pattern=ps))
+        if "[" not in pf and "[" not in ps:
+            add_model(1713, [codes(pf), codes(ps)] + groups_of(canon_nf(nf0)), [gf, gs], dict(matrix=nf0, frame_pattern=pf, signal_pattern=ps))
+        else:
+            chk.count("searched-not-tied-bracket-pattern")
 
-    chk.assumptions.append("model/Glob_c17.v covers patterns of literals, '*' and '?' only; the generators never emit '['")
+    chk.assumptions.append("model/Glob_c17.v covers patterns of literals, '*' and '?' only; patterns with a [..] character class are judged "
+                           "against the oracle (whose reading of classes is compared with fnmatch) but are not sent to the model")
     if not ok:
         chk.ties["correspondence"] = "not run (build failed)"
         return
